@@ -96,6 +96,9 @@ func getDefaultMetadata(index *compactindexsized.DB) (*Metadata, error) {
 
 	epochBytes, ok := meta.Get(indexmeta.MetadataKey_Epoch)
 	if ok {
+		if len(epochBytes) != 8 {
+			return nil, fmt.Errorf("metadata.epoch has %d bytes, expected 8", len(epochBytes))
+		}
 		out.Epoch = BtoUint64(epochBytes)
 	} else {
 		return nil, fmt.Errorf("metadata.epoch is empty")
